@@ -228,6 +228,32 @@ Proof.
   eapply sub_trans; [apply replace_mids_sub|]. rewrite lbuf_opt_lns. apply sub_refl.
 Qed.
 
+(* exactly: the new lines carry the marks of the first |t| replaced lines *)
+Lemma mids_mknew_eq : forall t old nid, mids dep (mknew old t nid) = mids dep (firstn (length t) old).
+Proof.
+  induction t as [|x t IH]; intros old nid; [reflexivity|]. destruct old as [|o old]; cbn [mknew length firstn].
+  - rewrite mids_cons. unfold glob_marked at 1. cbn [lgl]. rewrite N.bits_0. rewrite IH. destruct (length t); reflexivity.
+  - rewrite !mids_cons. change (mk (mkline (lid o) (lgl o) x)) with (mk o). cbn [lid]. rewrite IH. reflexivity.
+Qed.
+
+(* a splice that puts in at least as many lines as it takes out drops no mark at all *)
+Lemma replace_mids_eq s pos n_del l :
+  (n_del <= length (match s with Some b => split_lines b | None => [] end))%nat ->
+  mids dep (lns (lbuf_replace s pos n_del l)) = mids dep (lns l).
+Proof.
+  intro H. rewrite lbuf_replace_lns. unfold splice, new_of.
+  set (t := match s with Some b => split_lines b | None => [] end) in *.
+  rewrite <- (split3 pos n_del (lns l)) at 4. rewrite !mids_app. f_equal. f_equal.
+  rewrite mids_mknew_eq. rewrite firstn_all2; [reflexivity|]. rewrite firstn_length. lia.
+Qed.
+
+Lemma edit_mids_eq s b e l :
+  (Nat.min e (length (lns l)) - Nat.min b (length (lns l)) <= length (match s with Some x => split_lines x | None => [] end))%nat ->
+  mids dep (lns (lbuf_edit s b e l)) = mids dep (lns l).
+Proof.
+  intro H. unfold lbuf_edit. destruct (_ && _); [reflexivity|]. rewrite replace_mids_eq by exact H. reflexivity.
+Qed.
+
 (* a mark is dropped only together with its line: an identity that is still in the buffer after the splice and was
    marked before is still marked -- provided identities are unique and fresh ones are new (nextid above all) *)
 Lemma mknew_mk : forall t old nid r, mk (nth r (mknew old t nid) dline) = true -> mk (nth r old dline) = true.
@@ -310,22 +336,22 @@ Definition Ls (s : st) : list line := lns (lb s).
 
 (* "the command neither marks a line nor pulls a marked one up": for every k *)
 Definition noshrink (s s' : st) : Prop :=
-  sub (mids dep (Ls s')) (mids dep (Ls s)) /\ forall k, clean_below dep k (Ls s) -> clean_below dep k (Ls s').
+  mids dep (Ls s') = mids dep (Ls s) /\ forall k, clean_below dep k (Ls s) -> clean_below dep k (Ls s').
 
 Lemma noshrink_same s s' : lb s' = lb s -> noshrink s s'.
-Proof. intro E. unfold noshrink, Ls. rewrite E. split; [apply sub_refl | auto]. Qed.
+Proof. intro E. unfold noshrink, Ls. rewrite E. split; [reflexivity | auto]. Qed.
 
 Lemma noshrink_lns s s' : lns (lb s') = lns (lb s) -> noshrink s s'.
-Proof. intro E. unfold noshrink, Ls. rewrite E. split; [apply sub_refl | auto]. Qed.
+Proof. intro E. unfold noshrink, Ls. rewrite E. split; [reflexivity | auto]. Qed.
 
 Lemma noshrink_trans s1 s2 s3 : noshrink s1 s2 -> noshrink s2 s3 -> noshrink s1 s3.
-Proof. intros [A1 A2] [B1 B2]. split; [eapply sub_trans; eassumption | auto]. Qed.
+Proof. intros [A1 A2] [B1 B2]. split; [rewrite B1; exact A1 | auto]. Qed.
 
 Lemma noshrink_edit s t (b e : Z) :
   (Nat.min (Z.to_nat e) (length (Ls s)) - Nat.min (Z.to_nat b) (length (Ls s)) <= length (match t with Some x => split_lines x | None => [] end))%nat ->
   noshrink s (edit s t b e).
 Proof.
-  intro H. unfold noshrink, Ls, edit. cbn [lb set_lb]. split; [apply edit_mids_sub|].
+  intro H. unfold noshrink, Ls, edit. cbn [lb set_lb]. split; [apply edit_mids_eq; exact H|].
   intros k Hc. apply edit_clean; [exact Hc | left; exact H].
 Qed.
 
@@ -344,7 +370,7 @@ Definition tracks (s s' : st) : Prop :=
   clean_below dep (Z.to_nat (Z.min (xrow s) (xrow s'))) (Ls s').
 
 Lemma noshrink_tracks s s' : (0 <= xrow s)%Z -> clean_below dep (S (Z.to_nat (xrow s))) (Ls s) -> noshrink s s' -> tracks s s'.
-Proof. intros H0 Hc [A B]. split; [exact A|]. apply B. eapply clean_mono; [|exact Hc]. lia. Qed.
+Proof. intros H0 Hc [A B]. split; [rewrite A; apply sub_refl|]. apply B. eapply clean_mono; [|exact Hc]. lia. Qed.
 
 Ltac regd loc s :=
   let E := fresh "E" in destruct (ex_region rvalid rfind loc s) as [[[?bad ?b] ?e] ?s1] eqn:E;
@@ -429,6 +455,15 @@ Proof.
   - apply edit_clean; [rewrite R; eapply clean_mono; [|exact Hc]; lia|]. right. cbn [length]. lia.
 Qed.
 
+(* a and i (not c) never take a line out *)
+Lemma insert_noshrink loc cmd txt s : (hd0 cmd =? 99)%N = false -> noshrink s (fst (ec_insert rvalid rfind loc cmd txt s)).
+Proof.
+  intro Hc. unfold ec_insert. regd loc s. destruct (_ && _); [apply noshrink_same; exact R|]. cbn [fst]. rewrite Hc.
+  eapply noshrink_trans; [apply (noshrink_same s s1 R)|].
+  match goal with |- context [edit s1 txt ?x ?x] => set (b' := x) end.
+  apply (noshrink_trans _ (edit s1 txt b' b')); [apply noshrink_edit; lia | apply noshrink_same; reflexivity].
+Qed.
+
 (* the commands of the property's list that do not run other commands (and the harmless rest: p, k, y, =, rs, ec and the
    null command) *)
 Definition track_cmds : list bytes :=
@@ -447,6 +482,32 @@ Proof.
   - apply insert_tracks; assumption.
   - apply insert_tracks; assumption.
   - apply delete_tracks; assumption.
+  - apply NS, noshrink_lns. unfold ec_mark. regd loc s. destruct (_ || _); cbn [fst lb set_lb]; [rewrite R; reflexivity|].
+    rewrite lbuf_mark_lns, R. reflexivity.
+  - apply NS, noshrink_same, print_same.
+  - apply NS, put_noshrink.
+  - apply NS, read_noshrink.
+  - apply NS, noshrink_same. unfold ec_rs. destruct txt; reflexivity.
+  - apply NS, substitute_noshrink.
+  - apply NS, noshrink_same. unfold ec_yank. regd loc s. destruct (_ || _); exact R.
+  - apply NS, noshrink_same. unfold ec_lnum. regd loc s. destruct (_ || _); exact R.
+  - apply NS, noshrink_same. reflexivity.
+  - apply NS, noshrink_same. unfold ec_null. rewrite print_same. reflexivity.
+Qed.
+
+
+(* the commands that never take a line out of the buffer drop no mark at all: a, i, pu, r, s (and p k y = rs ec, null) *)
+Definition keep_cmds : list bytes :=
+  [[97]; [105]; [107]; [112]; [112; 117]; [114]; [114; 115]; [115]; [121]; [61]; [101; 99]; []]%N.
+
+Theorem simple_keeps a loc cmd arg txt s : In a keep_cmds -> (hd0 cmd =? 99)%N = false ->
+  mids dep (Ls (fst (ex_simple rvalid rfind filter readfile curpath a loc cmd arg txt s))) = mids dep (Ls s).
+Proof.
+  intros Ha Hcm. cbn [keep_cmds In] in Ha.
+  assert (NS : forall s', noshrink s s' -> mids dep (Ls s') = mids dep (Ls s)) by (intros s' [A _]; exact A).
+  repeat (destruct Ha as [Ha|Ha]; [subst a; pick_cmd|]); [..|contradiction].
+  - apply NS, insert_noshrink, Hcm.
+  - apply NS, insert_noshrink, Hcm.
   - apply NS, noshrink_lns. unfold ec_mark. regd loc s. destruct (_ || _); cbn [fst lb set_lb]; [rewrite R; reflexivity|].
     rewrite lbuf_mark_lns, R. reflexivity.
   - apply NS, noshrink_same, print_same.
@@ -527,6 +588,14 @@ Proof.
   rewrite E in T. exact T.
 Qed.
 
+Theorem single_keeps_exec dep rvalid rfind filter readfile curpath a loc cmd arg txt : In a keep_cmds -> (hd0 cmd =? 99)%N = false ->
+  keeps_exec (fun _ s => ex_simple rvalid rfind filter readfile curpath a loc cmd arg txt s) dep (fun _ => True).
+Proof.
+  intros Ha Hc body s s' r m E _ I.
+  pose proof (simple_keeps dep rvalid rfind filter readfile curpath a loc cmd arg txt s Ha Hc) as K.
+  rewrite E in K. cbn [fst] in K. unfold Ls in K. rewrite K. exact I.
+Qed.
+
 (* ---------------------------------------------------------------------------------------- *)
 (* the visit theorem from the entry of ec_glob's loop *)
 
@@ -600,3 +669,29 @@ Lemma trace_erasure dep rfind exec pat body not fuel i s vis :
   fst (glob_loop_vis rfind exec fuel i pat body not dep s vis) = glob_loop rfind exec fuel i pat body not dep s /\
   fst (glob_loop_x rfind exec fuel i pat body not dep s vis) = glob_loop_vis rfind exec fuel i pat body not dep s vis.
 Proof. split; [apply glob_loop_vis_erase | apply glob_loop_x_vis]. Qed.
+
+Lemma keep_track a : In a keep_cmds -> In a track_cmds.
+Proof. unfold keep_cmds, track_cmds. cbn [In]. intuition. Qed.
+
+(* a global whose command list is ONE command that never takes a line out (a, i, pu, r, s, p, k, y, =) visits, when it
+   ends normally, the first line of its range and then EVERY other line of the original range, each once, in order *)
+Theorem nondeleting_global_visits_all dep rvalid rfind filter readfile curpath a loc cmd arg txt :
+  In a keep_cmds -> (hd0 cmd =? 99)%N = false ->
+  forall s b n pat body not fuel,
+  nomarks dep (lns (lb s)) -> (b < length (lns (lb s)))%nat ->
+  let M0 := map lid (firstn n (skipn (S b) (lns (lb s)))) in
+  let first := lid (nth b (lns (lb s)) dline) in
+  let '(s', vis', x) := glob_loop_x rfind (fun _ s => ex_simple rvalid rfind filter readfile curpath a loc cmd arg txt s)
+                          fuel b pat body not dep (set_lb s (globset_range n (S b) dep (lb s))) [] in
+  x = 0%N -> exists vs, map fst vis' = first :: vs /\ sub vs M0 /\ (forall m, In m M0 -> In m vs) /\ mids dep (lns (lb s')) = [].
+Proof.
+  intros Ha Hc s b n pat body not fuel Hn Hb M0 first.
+  pose proof (glob_visits_from_marking dep rfind _ (fun _ => True)
+                (single_good_exec dep rvalid rfind filter readfile curpath a loc cmd arg txt (keep_track a Ha))
+                (single_keeps_exec dep rvalid rfind filter readfile curpath a loc cmd arg txt Ha Hc)
+                s b n pat body not fuel Hn Hb) as V.
+  cbv zeta in V. fold M0 first in V.
+  destruct (glob_loop_x _ _ fuel b pat body not dep _ []) as [[s' vis'] x].
+  destruct V as [_ V]. intro X. destruct (V X) as (vs & E & S1 & Z0 & K). exists vs. split; [exact E|]. split; [exact S1|].
+  split; [intros m Im; exact (K m Im I) | exact Z0].
+Qed.
